@@ -321,7 +321,8 @@ def run_unit(prop, unit, pcfg, cache, usize=8, seed=None, want_canary=True, forc
         bad = {}
         for d in res['diags']:
             sp = [x for x in d['spans'] if x['is_primary']] or d['spans']
-            f = fn_at_line(gen, sp[0]['line_start']) if sp else None
+            if not sp: continue                      # summary lines ("aborting due to ..") carry no location
+            f = fn_at_line(gen, sp[0]['line_start'])
             if f is None or f.external: bad = None; break
             bad[(f.module, f.path)] = 'Verus front end: ' + d['message'][:200]
         if bad:
